@@ -30,7 +30,7 @@ PROP = [  # (substring of the commit subject, property ids)
     ("start_vertices", "C10 (also C09)"), ("remove_long_paths", "C10"), ("initial_rejected_subword", "C10"),
     ("symmetric_square called", "C05"), ("parse_simple", "C05"), ("parse_word(simple=False)", "C05"),
     ("integer-dtype representation", "C05 (also C12)"), ("_build_in_dict", "C09"), ("add_edges", "C09"), ("add_vertices creates a plain dict", "C09 (also C10)"), ("end_state", "C06"),
-    ("half-space/Poincare conversions allocate", "C01 (also C12)"), ("indefinite_orthogonalize works on a float copy", "C18 (also C02, C11)"), ("o_to_pgl works on arrays", "C17"), ("lie.hom wrappers forward", "C17"), ("Coxeter representations with multi-character generator names", "C06 (also C08)"), ("glued multi-character generator names", "C06"), ("precomputed=d) reused values", "C06"), ("from_coxeter_matrix stores integer labels", "C07 (also C12)"), ("degenerate-form guard", "C08"), ("cartan_matrix accepts free parameters at every infinite label", "C08"), ("the degenerate-form guard takes its tolerance", "C08"), ("fixed vectors of the other projective representative", "C15"), ("point_along on a tangent vector stored with integer", "C13 (also C12)"), ("TangentVector.angle treats", "C13 (also C12)"), ("reflection across a subspace through the origin", "C15"), ("from_reflection accepts a bare array", "C15"), ("no longer insert an empty entry", "C09 (also C10)"), ("refuses an edge that contradicts", "C09"), ("incoming view has a row for every vertex", "C09"), ("free_automaton accepts a one-shot", "C10 (also C09)"), ("return a prefix of the word they were given", "C10"), ("svd_kernel detects mismatched ranks", "C18"), ("_data_with_dual rescales the ideal basis", "C02 (also C15)"), ("timelike_to refuses lightlike", "C02"), ("rank-2 composite DualPoint / Point of normals", "C15"), ("projective_to_spherical(column_vectors=True)", "C20"), ("edge_labels returns a copy", "C09"), ("draw_point draws on", "C19"),
+    ("half-space/Poincare conversions allocate", "C01 (also C12)"), ("indefinite_orthogonalize works on a float copy", "C18 (also C02, C11)"), ("o_to_pgl works on arrays", "C17"), ("lie.hom wrappers forward", "C17"), ("Coxeter representations with multi-character generator names", "C06 (also C08)"), ("glued multi-character generator names", "C06"), ("precomputed=d) reused values", "C06"), ("from_coxeter_matrix stores integer labels", "C07 (also C12)"), ("degenerate-form guard", "C08"), ("cartan_matrix accepts free parameters at every infinite label", "C08"), ("the degenerate-form guard takes its tolerance", "C08"), ("fixed vectors of the other projective representative", "C15"), ("point_along on a tangent vector stored with integer", "C13 (also C12)"), ("TangentVector.angle treats", "C13 (also C12)"), ("reflection across a subspace through the origin", "C15"), ("from_reflection accepts a bare array", "C15"), ("no longer insert an empty entry", "C09 (also C10)"), ("refuses an edge that contradicts", "C09"), ("incoming view has a row for every vertex", "C09"), ("free_automaton accepts a one-shot", "C10 (also C09)"), ("return a prefix of the word they were given", "C10"), ("svd_kernel detects mismatched ranks", "C18"), ("_data_with_dual rescales the ideal basis", "C02 (also C15)"), ("timelike_to refuses lightlike", "C02"), ("rank-2 composite DualPoint / Point of normals", "C15"), ("projective_to_spherical(column_vectors=True)", "C20"), ("from_reflection rejected reflections across walls", "C15"), ("edge_labels returns a copy", "C09"), ("draw_point draws on", "C19"),
     ("from_angle", "C12"), ("standard_rotation", "C12"), ("integer", "C12"), ("CP1Disk", "C20"), ("intersects", "C20"),
 ]
 out = subprocess.check_output(["git", "-C", "/repo", "log", "--reverse", "--format=%h|%s", "5fa3ad4..HEAD"], text=True)
